@@ -124,7 +124,7 @@ func caseC06(c *Ctx) {
 		sp = genSpellingSimple(c, forest) // may adjust root names: before anything refers to them
 	}
 	st := c06state{pre: map[string]string{}}
-	st.kind = []string{"empty", "missing", "preexisting", "below-file", "long-name"}[c.Pick(5, 2, 3, 1, 1)]
+	st.kind = []string{"empty", "missing", "preexisting", "below-file", "long-name", "deep-path"}[c.Pick(5, 2, 3, 1, 1, 1)]
 	if !op.FromRoot && st.kind == "preexisting" && c.Chance(1, 5) {
 		// MkdirFromMarkdown accepts a root written as a path; its existence check must look at that path
 		forest[0].Name = []string{"lib/core", "./assets", "a/b/c"}[c.Draw(3)]
@@ -146,6 +146,15 @@ func caseC06(c *Ctx) {
 	case "long-name":
 		// a leaf with a 300-byte name below the first root
 		forest[0].Kids = append(forest[0].Kids, &MNode{Name: strings.Repeat("n", 300)})
+	case "deep-path":
+		// a chain whose relative path is longer than 255 bytes while every name is short
+		// enough: the operating system accepts it
+		n := forest[0]
+		for i := 0; i < 9+c.Draw(6); i++ {
+			k := &MNode{Name: fmt.Sprintf("level%02d-%s", i, strings.Repeat("d", 20+c.Draw(15)))}
+			n.Kids = append(n.Kids, k)
+			n = k
+		}
 	}
 	restricted := c.Chance(1, 3)
 	dotdot := c.Chance(1, 8)
@@ -492,6 +501,16 @@ func caseC08(c *Ctx) {
 		// a root named "." stands for the target directory itself
 		forest[0].Name = "."
 		c.st.Count("root-named-dot")
+	}
+	if !op.FromRoot && !manyRoots && c.Chance(1, 8) {
+		// the same root written twice in a row, each time with children of its own: every
+		// occurrence is a root of the forest and is verified
+		i := c.Draw(len(forest))
+		twin := genTree(c, forest[i].Name, fo)
+		twin.Kids = append(twin.Kids, &MNode{Name: "only-in-second-occurrence"})
+		forest = append(forest[:i+1], append([]*MNode{twin}, forest[i+1:]...)...)
+		op.Strict = false // (what counts as an extra entry below a root that is written twice is not settled by the statement)
+		c.st.Count("same-root-twice-in-a-row")
 	}
 	exts := extSets[c.Draw(len(extSets))]
 	j := newJail()
